@@ -145,7 +145,10 @@ func c10RunCase(ci int, tr *vw.Trace, child bool) {
 			c = g.next(cur, p-1, "c10")
 		}
 		idx += uint64(r.PickInt(1, 1, 1, 1, 2, 3)) // raft indices have gaps (configuration entries, no-ops)
-		if c.malformed != 0 {
+		if c.malformed == 3 {
+			vw.Stat("outside-submittable-no-crash:"+c.kind, 1)
+		}
+		if c.malformed == 1 || c.malformed == 2 {
 			vw.Stat("malformed:"+c.kind, 1)
 			if child {
 				// the real thing: if this kills the process, the parent sees it
